@@ -423,6 +423,16 @@ func (res *Result) fill(nt *Net) {
 	fmt.Fprintf(&b, "maxround=%d done=%v", res.MaxRound, res.Done)
 	res.Outcome = b.String()
 	res.Trace = nt.Trace
+	if nt.Sc.Mode == "decisions" {
+		parts := make([]string, len(nt.decisions))
+		for i, d := range nt.decisions {
+			parts[i] = fmt.Sprint(d)
+		}
+		if res.Extra == nil {
+			res.Extra = map[string]string{}
+		}
+		res.Extra["decisions"] = strings.Join(parts, ",")
+	}
 	if nt.Sc.Mode == "writelog" {
 		res.Extra = map[string]string{"writelog": strings.Join(nt.writeLog, "\n")}
 	}
